@@ -387,7 +387,7 @@ class Rewriter:
 # runtime
 # ---------------------------------------------------------------------------------------------
 class Act:
-    __slots__ = ('fid', 'aid', 'steps', 'last', 'bound', 'reads', 'entries', 'live_obs', 'ended', 'exc', 'implicit', 'raise_step', 'cut')
+    __slots__ = ('fid', 'aid', 'steps', 'last', 'bound', 'reads', 'entries', 'live_obs', 'ended', 'exc', 'implicit', 'raise_step', 'cut', 'def_time')
 
     def __init__(self, fid, aid):
         self.fid, self.aid = fid, aid
@@ -400,6 +400,7 @@ class Act:
         self.ended = False
         self.exc = None
         self.implicit = False
+        self.def_time = None     # when the def statement that created this activation's function object last ran
         self.raise_step = None   # index of the step of the explicit raise whose exception is propagating
         self.cut = None          # number of leading steps that precede any propagation through a `finally` body
 
@@ -411,6 +412,8 @@ class Tracer:
         self.acts = []
         self.implicit = False
         self._anc = {}
+        self.clock = 0
+        self.last_def = {}       # function id -> clock of the last execution of its def statement
 
     # ---- helpers
     def _owner_act(self, pos, name):
@@ -452,6 +455,7 @@ class Tracer:
     # ---- events
     def enter(self, fid):
         a = Act(fid, len(self.acts))
+        a.def_time = self.last_def.get(fid)
         self.acts.append(a)
         self.stack.append(a)
         fs = self.fns[fid]
@@ -526,7 +530,7 @@ class Tracer:
         a.entries.append(frozenset(a.bound))
         return None
 
-    def _read(self, a, name, reader_fid, name_id):
+    def _read(self, a, name, reader_fid, name_id, later=False):
         st = self._cur(a)
         if st is None:
             return
@@ -539,7 +543,7 @@ class Tracer:
             st['creads'].add((reader_fid, name))
         lw = a.last.get(name)
         i0 = lw[1] if lw is not None else 0
-        a.live_obs.append((i0, j, name, reader_fid, name_id))
+        a.live_obs.append((i0, j, name, reader_fid, name_id, later))
 
     def rd(self, name_id, name, value):
         a = self.stack[-1]
@@ -551,9 +555,11 @@ class Tracer:
             a.reads.append((len(a.steps) - 1, name_id, name, lw, ident == a.aid, ident))
             self._read(a, name, None, name_id)
         if ident is not None:
+            # a read by ANOTHER local function running during activation o (one nested in o's function, or a sibling / outer
+            # local function that o called) of a variable o's own code can see: a closure read in o's trace
             for o in self._others_seeing(name, ident):
-                if self._is_ancestor(o.fid, a.fid):
-                    self._read(o, name, a.fid, name_id)
+                later = a.def_time is not None and o.def_time is not None and a.def_time > o.def_time
+                self._read(o, name, a.fid, name_id, later)
         return value
 
     def rdaug(self, name_id, name):
@@ -586,6 +592,9 @@ class Tracer:
                         (o.bound.add if kind == 'direct' else o.bound.discard)(name)
 
     def wr(self, nid, names):
+        if nid in self.fns:                       # a nested def statement has just created the function object
+            self.clock += 1
+            self.last_def[nid] = self.clock
         self._touch(names, nid, 'direct')
 
     def dl(self, nid, names):
